@@ -245,11 +245,13 @@ Qed.
 (* ---- every history ---- *)
 Lemma gstep_wf fuel e g o g' : wf g -> gstep fuel e g o = Rok g' -> wf g'.
 Proof.
-  intros Hwf H. destruct o as [nm md source reason|k|k]; cbn [gstep] in H.
+  intros Hwf H. destruct o as [nm md source reason|nm md sid reason|k|k]; cbn [gstep] in H.
   - destruct source as [sk|].
     + destruct (slookup (norm sk) (index g)); [|discriminate].
       apply bind_ok in H as [[g1 ns] [Ha H]]. cbv beta iota in H. injection H as <-. eapply add_dist_wf; eassumption.
     + apply bind_ok in H as [[g1 ns] [Ha H]]. cbv beta iota in H. injection H as <-. eapply add_dist_wf; eassumption.
+  - destruct (alookup sid (heap g)); [|discriminate].
+    apply bind_ok in H as [[g1 ns] [Ha H]]. cbv beta iota in H. injection H as <-. eapply add_dist_wf; eassumption.
   - destruct (slookup (norm k) (index g)); [|discriminate]. eapply remove_dists_wf; eassumption.
   - destruct (slookup (norm k) (index g)); [|discriminate]. eapply remove_dists_wf; eassumption.
 Qed.
